@@ -19,6 +19,9 @@ type Result struct {
 	Call, Return int64 // logical clock stamps (strictly increasing over all events)
 	Val          any
 	Points       []string // hook points the operation passed
+	Parked       []string // the points it was parked at, in order ...
+	ParkedAt     []int64  // ... and the position of that sighting in the sequence of all events the scheduler handled
+	ReturnAt     int64    // the position of the operation's return in that sequence
 }
 
 // Move is one scheduler decision, for failure reports.
@@ -118,13 +121,19 @@ func (s *Sched) Run(run func(i int) any, schedule []int) (res []Result, moves []
 	at := make([]string, n)
 	released := make([]int, n)
 	clock := int64(0)
+	seq := int64(0)
 	handle := func(e event) {
 		if e.kind == "parked" {
 			state[e.op] = stParked
 			at[e.op] = e.point
+			seq++
+			res[e.op].Parked = append(res[e.op].Parked, e.point)
+			res[e.op].ParkedAt = append(res[e.op].ParkedAt, seq)
 			return
 		}
 		state[e.op] = stDone
+		seq++
+		res[e.op].ReturnAt = seq
 		clock++
 		res[e.op].Return = clock
 		res[e.op].Val = vals[e.op]
